@@ -131,9 +131,46 @@ def rule_address_operands(chk, facts, P):
         raise AnalysisBroken('ORG/PHASE operand stores not found')
 
 
+def rule_label_fixup(chk, facts, P):
+    chk.rule('C10-R12', 'asmlabel.c: everything LabelHandle() derives from the label\'s value can be corrected by '
+             'LabelModify() when alignment padding moves the labelled statement: each place the value goes to (structure '
+             'element offset, symbol entry, LabelValue) is either a variable LabelModify() assigns from the new value or '
+             'a symbol entry that is kept in pLabelEntry for ChangeSymbol()', min_instances=4)
+    lh = facts.func('asmlabel.c', 'LabelHandle')
+    lm = facts.func('asmlabel.c', 'LabelModify')
+    val = ('p', lh.params[1]['name'])
+    newv = ('p', lm.params[1]['name'])
+    mod_targets = {strip(m[2]) for b, i, ln, m in lm.nodes() if is_assign(m) and m[1] == '=' and nocast(m[3]) == newv}
+    changes = {strip(nocast(c[2][0])) for b, i, ln, c in lm.calls('ChangeSymbol') if c[2]}
+    n = 0
+    for b, i, ln, m in lh.nodes():
+        if is_assign(m) and m[1] == '=' and nocast(m[3]) == val:
+            n += 1
+            t = strip(m[2])
+            ok = t in mod_targets
+            chk.ob('C10-R12', 'asmlabel.c:LabelHandle:%s' % show(t), ok, lh.loc(ln), 'corrected by LabelModify()' if ok else
+                   '%s receives the label value but LabelModify() does not update it' % show(t))
+        if m[0] == 'call' and callee_name(m) and any(nocast(a) == val for a in m[2]):
+            g = P.resolve(lh.unit, callee_name(m))
+            if g is None or not (callee_name(m).startswith('Enter') or 'Symbol' in callee_name(m)):
+                continue
+            n += 1
+            # is the result kept in a variable that LabelModify() hands to ChangeSymbol()?
+            kept = any(is_assign(x) and strip(x[2]) in changes and nocast(x[3])[0] == 'call' and
+                       callee_name(nocast(x[3])) == callee_name(m) and nocast(x[3])[-1] == m[-1] for b2, i2, l2, x in lh.nodes())
+            chk.ob('C10-R12', 'asmlabel.c:LabelHandle:%s()' % callee_name(m), kept, lh.loc(ln),
+                   'entry kept for ChangeSymbol()' if kept else
+                   '%s() defines a symbol from the label value, but the entry is not kept: when padding moves the statement '
+                   '(68000: "f1 ds.b 1 / f2 ds.w 1" in a STRUCT) the structure element is corrected and the symbol is not '
+                   '(S_F2 = 1 while the element lies at offset 2)' % callee_name(m))
+    if n < 4:
+        raise AnalysisBroken('LabelHandle: value sinks not found')
+
+
 def run(chk, facts, info):
     P = facts.program('asl')
     rule_struct_segment(chk, facts)
+    rule_label_fixup(chk, facts, P)
     rule_address_operands(chk, facts, P)
     rule_address_modulo(chk, facts, P)
     chk.rule('C10-R8', 'logical (PHASE-adjusted, EProgCounter()) and physical (ProgCounter()) addresses are never compared, '
